@@ -247,6 +247,57 @@ def _life_case(rng, cls):
     return case
 
 
+def _nested_case(rng, cls):
+    """re-entrancy: callables (events, model.step) that call run_next_event() - also recursively - or reset() on the simulator that is
+    executing them, mixed with scheduling for now / the future / the past and cancelling themselves, earlier and later events; every run
+    path outside.  Implementation + nested_oracle only ("nested": true)."""
+    tag = [0]
+
+    def nt():
+        tag[0] += 1
+        return tag[0]
+
+    def body(depth, t):
+        out = []
+        for _ in range(rng.randint(1, 4)):
+            x = rng.random()
+            if x < 0.3:
+                out.append(["rnext"])
+            elif x < 0.65:
+                kind = rng.choice(["abs", "rel", "now", "now"] + (["tick"] if cls == "ABM" else []))
+                tt = {"abs": t + rng.choice([-S, 0, 0, S, 2 * S]), "rel": rng.choice([0, S, S, 2 * S, -S])}.get(kind, 0)
+                out.append(["sched", kind, max(tt, -S) if kind == "rel" else max(tt, 0), False, rng.choice("HDL"), nt(), 0,
+                            body(depth - 1, t + S) if depth > 0 and rng.random() < 0.5 else []])
+            elif x < 0.9 and tag[0]:
+                out.append(["cancel", rng.choice([tag[0], rng.randint(1, tag[0]), tag[0] + 1])])
+            elif x > 0.97 and cls == "DEVS":
+                # (ABMSimulator: a reset() from inside an event leaves the enclosing run_until running without a model, and the next
+                #  event then fails with AttributeError on self.model.step - HEAD's behaviour, outside the statement, not generated)
+                out.append(["rreset"])
+        return out
+
+    ops = []
+    for _ in range(rng.randint(2, 5)):
+        t = rng.randint(0, 5) * S
+        tg = nt()
+        ops.append(["sched", "abs", t, False, rng.choice("HDL"), tg, 0, body(2, t)])
+    script = [[k, body(1, k * S)] for k in range(1, 7) if rng.random() < 0.3] if cls == "ABM" else []
+    clk = 0
+    for _ in range(rng.randint(2, 5)):
+        x = rng.random()
+        if x < 0.3:
+            ops.append(["next"])
+            clk += S
+        else:
+            d = rng.randint(0, 3) * S
+            clk += d
+            ops.append(["until", clk, False] if x < 0.65 else ["for", d, False])
+        if rng.random() < 0.3:
+            ops.append(["sched", "rel", rng.randint(0, 2) * S, False, rng.choice("HDL"), nt(), 0, body(1, clk)])
+    ops.append(["for", 12 * S, False])
+    return {"cls": cls, "script": script, "fuel": 400, "ops": ops, "nested": True}
+
+
 def _inject_raise(rng, body):
     """put one ["raise"] somewhere into this body or into the body of one of its schedule calls"""
     inner = [a for a in body if a[0] == "sched" and a[7]]
@@ -446,6 +497,9 @@ def gen_cases(rng, tier):
         cases.append(_life_case(rng, "ABM" if rng.random() < 0.5 else "DEVS"))
     for _ in range(80 if tier == "quick" else 3000):
         cases.append(_exc_case(rng, "ABM" if rng.random() < 0.5 else "DEVS"))
+    # user code in the loop: callables that re-enter the simulator (run_next_event / reset from inside an event or model.step)
+    for _ in range(60 if tier == "quick" else 3000):
+        cases.append(_nested_case(rng, "ABM" if rng.random() < 0.5 else "DEVS"))
     for _ in range(30 if tier == "quick" else 1500):
         cases.append(_bigint_case(rng, "DEVS" if rng.random() < 0.7 else "ABM"))
     for _ in range(10 if tier == "quick" else 200):
@@ -496,6 +550,8 @@ def enumerate_cases(tier, broken=False):
             yield {"cls": cls, "script": [], "fuel": 400, "ops": ops}
     for _ in range(300 if tier == "quick" else 1500):
         yield _inside_case(rng, rng.choice(["ABM", "DEVS"]))
+    for _ in range(400):
+        yield _nested_case(rng, rng.choice(["ABM", "DEVS"]))
     for gap in GAPS:
         for cls in ("ABM", "DEVS"):
             for _ in range(6):
@@ -520,6 +576,11 @@ RULE = ("histories = one ABMSimulator / DEVSimulator (set up, or - 4% / the life
         "numpy float64 / int64 scalars and bools as times. Driver: four kinds of weakly referenced callables (bound method, function, "
         "functools.partial, instance with __call__), holder objects and the model with truth value False, one function_kwargs dict shared by all "
         "events, positional and keyword spelling of every call alternating, a second simulator consuming event ids in the same process. "
+        "User code in the loop: raise acts cycle through custom / IndexError / StopIteration / KeyError / AttributeError / TypeError / GeneratorExit / "
+        "LookupError / RuntimeError subclasses; every other history runs on user SUBCLASSES (ABMSimulator / DEVSimulator overriding setup, "
+        "_execute_event, _schedule_event, run_for with super(); a Model whose step is overridden once more); lambdas among the callables; the second "
+        "simulator is reset() every third operation; re-entrant callables (run_next_event() - recursively - and reset() from inside an event / "
+        "model.step, 60 quick) are implementation + nested_oracle only, like the id-jump / mass-cancel (> 70 events) / float / numpy streams. "
         "Thorough: the same families x 30-75, the correspondence on the heapq-array model (order of EventList._events compared). "
         "non-trivial = at least 3 ops and one run call that executed something; distinct = by SHA1 of the history")
 TRUSTED_BASE = [
